@@ -343,7 +343,25 @@ func runC10Interop(sc *IopScript) *sim.Outcome {
 				continue
 			}
 			m.Settle(onA, onR)
-			m.fromR(m.R.End())
+			if op.X&4 != 0 {
+				// otr3 has been silent for more than a minute: a heartbeat is due when the next text arrives
+				sim.Age(m.A.C, 3*60e9)
+			}
+			if op.X&2 != 0 {
+				// last words and the disconnect record travel in one message (text, NUL, TLV 1[, padding])
+				n++
+				t := []byte(token(1, n) + " last words")
+				tl := []ref.TLV{{Type: ref.TLVDisconnected}}
+				if op.X&8 != 0 {
+					tl = append(tl, ref.TLV{Type: 0, Val: make([]byte, 5)})
+				}
+				m.fromR(m.R.Send(t, tl...))
+				m.R.Encrypted = false
+				sentR = append(sentR, string(t))
+				o.Class("ref-disconnect-with-text")
+			} else {
+				m.fromR(m.R.End())
+			}
 			m.Settle(onA, onR)
 			if m.A.C.IsEncrypted() {
 				return o.Fail("C10/interop-disconnect", "otr3 stayed encrypted after the reference's disconnect message (TLV 1, no padding)")
@@ -507,7 +525,9 @@ func TestProp_C10_Interop(t *testing.T) {
 			case "smpo", "smpr":
 				op.X = rapid.IntRange(0, 15).Draw(rt, "x")
 				op.S = rapid.SampledFrom([]string{"", "", "who?", "ünï"}).Draw(rt, "q")
-			case "endr", "endo", "refresh":
+			case "endr":
+				op.X = rapid.IntRange(0, 15).Draw(rt, "how")
+			case "endo", "refresh":
 				op.X = rapid.IntRange(0, 1).Draw(rt, "starter")
 			case "xko", "xkr":
 				op.X = rapid.IntRange(0, 1<<20).Draw(rt, "x")
